@@ -94,6 +94,7 @@ pub struct Session {
 
 impl Session {
     pub fn new(cap: usize, level: u32) -> Option<Session> {
+        history_noise();
         let mut b = http::Request::get("/");
         if level > 0 {
             b = b.header("accept-encoding", HeaderValue::from_static("gzip"));
